@@ -76,4 +76,9 @@ LEVELS = {
         "text": "The step size used by every observed transition is compared with an f64 dual-averaging reference driven by the same statistics, across multi-call histories; the freeze after warm-up is checked bitwise. Exploration over targets, deltas, warm-up lengths and call sequences.",
         "note": "First momentum replicated from the seed (rand's StandardNormal on SmallRng::seed_from_u64); eps0 judged by a post-condition, not by re-running the heuristic.",
     },
+    "C14": {
+        "technique": "runtime monitoring: invariant check on every returned state against the harness's own copy of hostile targets; panics captured; hangs decided by a logical target-evaluation budget",
+        "text": "All three gradient/MH samplers are driven on bounded-support and NaN-region targets with proposals, step sizes and start points chosen to produce hostile candidates (counted in the evidence); every resulting state is classified by an independent f64 copy of the density.",
+        "note": "Acceptance draws equal to 0 excluded per the statement; near-boundary states inconclusive.",
+    },
 }
